@@ -5,7 +5,7 @@ from vlib.core import Query
 META = {
     "engine": "E4 SIMD-vs-C equivalence",
     "level_text": "For each listed kernel pair and block geometry, CBMC runs the real AVX2/SSE2 kernel body and the real C reference on the same arbitrary sample content (all 2^(8n)/2^(16n) inputs, extremes included) and proves every output element equal, every element outside the block untouched, and every access inside exact-size heap buffers. x86 intrinsics are evaluated by gcc's own header definitions where they are plain vector C, and by lane-wise C bodies (models/ia32_models.h) for the builtins CBMC lacks; a translator-validation query proves CBMC's evaluation of every intrinsic used equals the CPU's result on concrete operand vectors.",
-    "level_note": "Kernels covered: svt_convert_16bit_to_8bit_avx2, svt_convert_8bit_to_16bit_avx2, svt_residual_kernel8bit_avx2, svt_residual_kernel16bit_avx2, svt_residual_kernel16bit_sse2_intrin, svt_picture_average_kernel_sse2_intrin, svt_unpack_avg_avx2_intrin, svt_unpack_avg_sse2_intrin, svt_enc_un_pack8_bit_data_avx2_intrin (element-wise, all AV1 block widths 4..64, 4 rows); svt_spatial_full_distortion_kernel_avx2 for 4x2 blocks only; and every intrinsics-written 8-bit/10-bit intra predictor of the families v, h, dc_128 (blocks up to 512 samples; v and dc_128 up to 64x64 in the thorough tier) and dc/dc_top/dc_left while the DC sum has at most 8 terms -- the list is derived from the SET_* lines of common_dsp_rtcd.c on every run (currently about 100 kernel pairs). Smooth/paeth predictors did not finish in 300 s even at 4x4 and are outside. svt_av1_quantize_fp_avx2 is compared with svt_av1_quantize_fp_c on a 16-coefficient block for every 16-bit coefficient value under 16 concrete dequant pairs (symbolic quantiser tables did not finish in 900 s). Reduction kernels (SSE/SAD/variance) beyond 8 accumulated terms are outside: equality of two differently associated 16-term sums is SAT-hard (isolated 10-line test > 120 s on all SAT back ends) and CBMC's SMT back ends abort on gcc vector casts, so those kernels, the transform/convolve/intra-prediction kernels, AVX512, and all other dispatch entries are not claimed.",
+    "level_note": "Kernels covered: svt_convert_16bit_to_8bit_avx2, svt_convert_8bit_to_16bit_avx2, svt_residual_kernel8bit_avx2, svt_residual_kernel16bit_avx2, svt_residual_kernel16bit_sse2_intrin, svt_picture_average_kernel_sse2_intrin, svt_unpack_avg_avx2_intrin, svt_unpack_avg_sse2_intrin, svt_enc_un_pack8_bit_data_avx2_intrin (element-wise, all AV1 block widths 4..64, 4 rows); svt_spatial_full_distortion_kernel_avx2 for 4x2 blocks only; and every intrinsics-written 8-bit/10-bit intra predictor of the families v, h, dc_128 (blocks up to 512 samples; v and dc_128 up to 64x64 in the thorough tier) and dc/dc_top/dc_left while the DC sum has at most 8 terms -- the list is derived from the SET_* lines of common_dsp_rtcd.c on every run (currently about 100 kernel pairs). Smooth/paeth predictors did not finish in 300 s even at 4x4 and are outside. svt_av1_quantize_fp_avx2 / _fp_32x32_avx2 / _fp_64x64_avx2 are compared with their C references on a 16-coefficient block for every 16-bit coefficient value under 16 concrete dequant pairs (symbolic quantiser tables did not finish in 900 s). Reduction kernels (SSE/SAD/variance) beyond 8 accumulated terms are outside: equality of two differently associated 16-term sums is SAT-hard (isolated 10-line test > 120 s on all SAT back ends) and CBMC's SMT back ends abort on gcc vector casts, so those kernels, the transform/convolve/intra-prediction kernels, AVX512, and all other dispatch entries are not claimed.",
     "technique": "solver-based checking of the real code (CBMC bounded symbolic execution of the real SIMD kernel body and its C reference on the same symbolic input; equivalence assertion; intrinsic models validated against the CPU)",
     "assumptions": ["svt_convert_16bit_to_8bit: source samples <= 255 (16-bit containers of 8-bit data; the AVX2 pack saturates where the C cast truncates)",
                     "squaring in the SSE query abstracted by an arbitrary 16-bit table shared by both sides (sound: the real squares are one instance)"],
@@ -157,12 +157,13 @@ def pred_selected(tier):
 def gen_quant(wd):
     import os
     from vlib import slicer
-    open(os.path.join(wd, "c07_quant_c.inc"), "w").write(slicer.functions("Source/Lib/Encoder/Codec/EbFullLoop.c", ["quantize_fp_helper_c", "svt_av1_quantize_fp_c"]))
+    open(os.path.join(wd, "c07_quant_c.inc"), "w").write(slicer.functions("Source/Lib/Encoder/Codec/EbFullLoop.c", ["quantize_fp_helper_c", "svt_av1_quantize_fp_c", "svt_av1_quantize_fp_32x32_c", "svt_av1_quantize_fp_64x64_c"]))
 
 
-def quant(dq0, dq1):
-    return Query(name="quantize_fp_avx2_eq_c_dq%d_%d" % (dq0, dq1), harness="C07/quant.c", simd=True, gen=gen_quant, unwind=36, timeout=900, defines=["DQ0=%d" % dq0, "DQ1=%d" % dq1], flags=["--slice-formula", "--object-bits", "10"],
-                 funcs=["Source/Lib/Encoder/ASM_AVX2/av1_quantize_avx2.c:svt_av1_quantize_fp_avx2", "Source/Lib/Encoder/Codec/EbFullLoop.c:svt_av1_quantize_fp_c"],
+def quant(dq0, dq1, kind=0):
+    kn = ("fp", "fp_32x32", "fp_64x64")[kind]
+    return Query(name="quantize_%s_avx2_eq_c_dq%d_%d" % (kn, dq0, dq1), harness="C07/quant.c", simd=True, gen=gen_quant, unwind=36, timeout=900, defines=["DQ0=%d" % dq0, "DQ1=%d" % dq1, "KIND=%d" % kind], flags=["--slice-formula", "--object-bits", "10"],
+                 funcs=["Source/Lib/Encoder/ASM_AVX2/av1_quantize_avx2.c:svt_av1_quantize_%s_avx2" % kn, "Source/Lib/Encoder/Codec/EbFullLoop.c:svt_av1_quantize_%s_c" % kn],
                  bound="16 coefficients (one vector step), every 16-bit coefficient value, dequant DC/AC = %d/%d with the derived quant/round tables (quant = 65536/dequant, round = 64*dequant>>7), identity scan" % (dq0, dq1) + "",
                  what="quantised and dequantised coefficients and end-of-block position identical")
 
@@ -173,8 +174,10 @@ def queries(tier):
     qs += [sse(4, 2)]
     qs += [pred(*x, to=600) for x in pred_selected(tier)]
     qs += [quant(a, b) for a, b in ((4, 4), (8, 8), (9, 10), (13, 16), (21, 27), (40, 48), (83, 8), (83, 97), (160, 212), (255, 311), (400, 500), (640, 800), (1000, 1200), (1336, 1336), (4, 1336), (1336, 4))]
+    qs += [quant(a, b, k) for k in (1, 2) for a, b in ((4, 4), (83, 8), (160, 212), (640, 800), (1336, 1336))]
     if tier == "thorough":
         qs += [conv(w) for w in (1, 2, 3, 5, 7, 12, 16, 17, 31, 33, 48, 63, 65, 72, 96, 128)]
+        qs += [quant(9, 10, 1), quant(9, 10, 2), quant(21, 27, 1), quant(21, 27, 2)]
         qs += [sse_sparse(w, 2, g) for w in (8, 16) for g in range(w * 2 // 4)]  # measured: 61 s (8x2) / 101 s (16x2) per query; 32x2 does not finish in 300 s
         qs += [elem(k, w, 8, 900) for k in (1, 2, 3, 4, 5) for w in (4, 8, 16, 32, 64)] + [elem(k, 128, 8, 900) for k in (1, 4, 5)]   # 16-bit residual kernels at 128x8 did not finish in 300 s under load
     return qs
